@@ -293,10 +293,21 @@ func (t *c12Blk) pathFromGenesis() []*c12Blk {
 // cross-check for the by-construction labels and for violation witnesses.
 // ---------------------------------------------------------------------------
 
+// c12Cfg is the part of the node configuration a C12 node, its twins and its
+// era-boundary sub-runs must share.
+type c12Cfg struct {
+	Maturity  uint32 `json:"maturity"`
+	VoteStart uint32 `json:"vote_start"`
+	CRCOnly   uint32 `json:"crc_only"` // 0 = regnet default (211000); else CRCOnlyDPOSHeight
+}
+
+func (g c12Cfg) String() string {
+	return fmt.Sprintf("maturity=%d voteStart=%d crcOnlyDPOSHeight=%d", g.Maturity, g.VoteStart, g.CRCOnly)
+}
+
 type c12TwinJob struct {
-	Maturity  uint32   `json:"maturity"`
-	VoteStart uint32   `json:"vote_start"`
-	Blocks    []string `json:"blocks"`
+	Cfg    c12Cfg   `json:"cfg"`
+	Blocks []string `json:"blocks"`
 }
 
 type c12TwinOut struct {
@@ -306,10 +317,13 @@ type c12TwinOut struct {
 	Fail     string `json:"fail"` // structural failure of the twin itself
 }
 
-func c12Options(dir string, maturity, voteStart uint32) node.Options {
-	return node.Options{Dir: dir, CoinbaseMaturity: maturity, Tweak: func(cfg *config.Configuration) {
-		if voteStart != 0 {
-			cfg.VoteStartHeight = voteStart
+func c12Options(dir string, g c12Cfg) node.Options {
+	return node.Options{Dir: dir, CoinbaseMaturity: g.Maturity, Tweak: func(cfg *config.Configuration) {
+		if g.VoteStart != 0 {
+			cfg.VoteStartHeight = g.VoteStart
+		}
+		if g.CRCOnly != 0 {
+			cfg.CRCOnlyDPOSHeight = g.CRCOnly
 		}
 	}}
 }
@@ -330,7 +344,7 @@ func runC12Twin(c *kit.Ctx, jobPath string) {
 		out.Fail = "job: " + err.Error()
 		return
 	}
-	nd, err := node.Start(c12Options(c.WorkDir, job.Maturity, job.VoteStart))
+	nd, err := node.Start(c12Options(c.WorkDir, job.Cfg))
 	if err != nil {
 		out.Fail = "node start: " + err.Error()
 		return
@@ -362,14 +376,14 @@ func runC12Twin(c *kit.Ctx, jobPath string) {
 }
 
 // c12Twin replays chain (heights 1..n) on a fresh node in a sub-process.
-func c12Twin(c *kit.Ctx, seq int, maturity, voteStart uint32, chain []*c12Blk) (c12TwinOut, error) {
+func c12Twin(c *kit.Ctx, seq int, cfg c12Cfg, chain []*c12Blk) (c12TwinOut, error) {
 	var out c12TwinOut
 	dir := filepath.Join(c.WorkDir, fmt.Sprintf("twin%04d", seq))
 	if err := os.MkdirAll(dir, 0755); err != nil {
 		return out, err
 	}
 	defer os.RemoveAll(dir)
-	job := c12TwinJob{Maturity: maturity, VoteStart: voteStart}
+	job := c12TwinJob{Cfg: cfg}
 	for _, b := range chain {
 		buf := new(bytes.Buffer)
 		if err := b.blk.Serialize(buf); err != nil {
